@@ -185,6 +185,8 @@ def run(ctx):
             # every typed IRI node carries its own address as a plain string (dcterms:identifier style): still a literal value
             typed = list(dict.fromkeys(s_ for s_, p_, o_ in g if p_ == RDF_TYPE and s_[0] == 'I'))
             g = g + [(s_, EX + 'identifier', L(s_[1])) for s_ in typed]
+        if rng.random() < 0.2:
+            g = list(dict.fromkeys(gen.spice_literals(rng, g)))      # awkward but legal lexical forms (escaped quotes, '@', '^^', Unicode line boundaries)
         for j in range(2 if ctx.tier == "quick" else 4):
             cfg = gen.default_cfg()
             cfg['all_compliant'] = True
